@@ -579,7 +579,7 @@ impl Engine for C01 {
         }
         // a pool filled towards its 65535 slots, shuffled, so that live entries get indices beyond 255 and 32767
         let big_pool_permille = match tier {
-            Tier::Quick => 4,
+            Tier::Quick => 1,
             Tier::Thorough => 25,
         };
         if w.below(1000) < big_pool_permille && pristine.len() < 20_000 {
